@@ -49,6 +49,9 @@ type Ctx struct {
 	tcache   map[string]types.Type
 	files    map[*token.File]*ast.File
 	devirts  map[string]string
+	devirtT  map[string]types.Type
+	typeInv  map[string][2]string
+	synth    map[*ssa.Function]*Contract
 	impls    map[string][]*ssa.Function
 }
 
@@ -88,9 +91,7 @@ func loadProgram(repo string, patterns []string) (*Ctx, error) {
 		}
 	})
 	ctx.cs = loadContracts(dirs)
-	for k, v := range ctx.cs.Devirt {
-		ctx.devirts[k] = v
-	}
+	ctx.resolveDirectives()
 	// index functions of repo packages
 	for path := range dirs {
 		sp := ctx.spkgs[path]
@@ -162,7 +163,74 @@ func (ctx *Ctx) funcKey(fn *ssa.Function) string {
 }
 
 func (ctx *Ctx) contractOf(fn *ssa.Function) *Contract {
-	return ctx.cs.ByFunc[ctx.funcKey(fn)]
+	if c, ok := ctx.cs.ByFunc[ctx.funcKey(fn)]; ok {
+		return c
+	}
+	return ctx.synthContract(fn)
+}
+
+// resolveDirectives turns devirt/typeinv directives into type-keyed tables.
+func (ctx *Ctx) resolveDirectives() {
+	ctx.devirtT = map[string]types.Type{}
+	ctx.typeInv = map[string][2]string{}
+	for k, v := range ctx.cs.Devirt {
+		i := strings.Index(k, "|")
+		pkg := ctx.typesPkg(k[:i])
+		it, ct := ctx.parseType(pkg, k[i+1:]), ctx.parseType(pkg, v)
+		if it == nil || ct == nil {
+			ctx.cs.Errors = append(ctx.cs.Errors, "devirt: cannot resolve "+k+" = "+v)
+			continue
+		}
+		ctx.devirtT[typeKeyFull(it)] = ct
+	}
+	for k, v := range ctx.cs.TypeInvs {
+		i := strings.Index(k, "|")
+		pkg := ctx.typesPkg(k[:i])
+		t := ctx.parseType(pkg, k[i+1:])
+		if t == nil {
+			ctx.cs.Errors = append(ctx.cs.Errors, "typeinv: cannot resolve "+k)
+			continue
+		}
+		ctx.typeInv[typeKeyFull(t)] = [2]string{k[:i], v}
+	}
+}
+
+// synthContract: functions without a written contract get the type invariants of their parameters as requires/ensures
+// (frame inferred). Returns nil when no parameter type has an invariant.
+func (ctx *Ctx) synthContract(fn *ssa.Function) *Contract {
+	if len(ctx.typeInv) == 0 || fn.Blocks == nil || !ctx.isRepoFunc(fn) || fn.Pkg == nil {
+		return nil
+	}
+	ctx.mu.Lock()
+	if c, ok := ctx.synth[fn]; ok {
+		ctx.mu.Unlock()
+		return c
+	}
+	ctx.mu.Unlock()
+	var c *Contract
+	for _, p := range fn.Params {
+		ti, ok := ctx.typeInv[typeKeyFull(p.Type())]
+		if !ok || p.Name() == "_" || p.Name() == "" {
+			continue
+		}
+		if c == nil {
+			c = &Contract{Func: fn.Name(), Pkg: fn.Pkg.Pkg.Path(), Invs: map[int][]*Clause{}, Decr: map[int]*Clause{}, NoTerm: map[int]bool{}, Unroll: map[int]int{}, File: "(type invariant)", Synth: true}
+		}
+		text := ti[1] + "(" + p.Name() + ")"
+		f, err := parseFormula(text)
+		if err != nil {
+			continue
+		}
+		c.Requires = append(c.Requires, &Clause{Kind: "requires", F: f, Text: text, File: "(typeinv " + typeKey(p.Type()) + ")"})
+		c.Ensures = append(c.Ensures, &Clause{Kind: "ensures", F: f, Text: text, File: "(typeinv " + typeKey(p.Type()) + ")"})
+	}
+	ctx.mu.Lock()
+	if ctx.synth == nil {
+		ctx.synth = map[*ssa.Function]*Contract{}
+	}
+	ctx.synth[fn] = c
+	ctx.mu.Unlock()
+	return c
 }
 
 func (ctx *Ctx) typeIDOf(t types.Type) int {
@@ -398,9 +466,11 @@ func (ctx *Ctx) directWrites(fn *ssa.Function) (map[string]bool, []*ssa.Function
 						}
 						continue
 					}
-					if k, ok := ctx.devirts[name]; ok {
-						addCallee(ctx.funcs[k])
-						continue
+					if ct, ok := ctx.devirtT[typeKeyFull(cc.Value.Type())]; ok {
+						if f := ctx.prog.LookupMethod(ct, cc.Method.Pkg(), cc.Method.Name()); f != nil {
+							addCallee(f)
+							continue
+						}
 					}
 					for _, f := range ctx.implementations(cc.Value.Type(), cc.Method) {
 						addCallee(f)
